@@ -474,7 +474,7 @@ func derivedFrom(v ssa.Value, from map[ssa.Value]bool, throughCalls bool) bool {
 		case *ssa.Index:
 			return rec(x.X, d+1) || rec(x.Index, d+1)
 		case *ssa.Lookup:
-			return rec(x.X, d+1) && false || rec(x.Index, d+1)
+			return rec(x.Index, d+1) || rec(x.X, d+1)
 		case *ssa.UnOp:
 			return rec(x.X, d+1)
 		case *ssa.Convert:
@@ -489,6 +489,23 @@ func derivedFrom(v ssa.Value, from map[ssa.Value]bool, throughCalls bool) bool {
 			return rec(x.X, d+1)
 		case *ssa.Slice:
 			return rec(x.X, d+1)
+		case *ssa.Alloc:
+			// a local cell / literal array: derived if anything stored into it (or its elements) is
+			for _, r := range *x.Referrers() {
+				switch y := r.(type) {
+				case *ssa.Store:
+					if y.Addr == ssa.Value(x) && rec(y.Val, d+1) {
+						return true
+					}
+				case *ssa.IndexAddr:
+					for _, r2 := range *y.Referrers() {
+						if st, ok := r2.(*ssa.Store); ok && st.Addr == ssa.Value(y) && rec(st.Val, d+1) {
+							return true
+						}
+					}
+				}
+			}
+			return false
 		case *ssa.Extract:
 			return rec(x.Tuple, d+1)
 		case *ssa.BinOp:
